@@ -303,8 +303,12 @@ def check(tier: str, replay: Optional[str] = None) -> int:
             for r in recs:
                 for var in r["cands"]:
                     distinct.setdefault(variant_key(var), var)
-            objs = build_db(list(distinct.values()))
-            objs_bv = build_db_bv([var for var in distinct.values() if len(var) <= 1])
+            try:
+                objs = build_db(list(distinct.values()))
+                objs_bv = build_db_bv([var for var in distinct.values() if len(var) <= 1])
+            except Exception as e:  # noqa: BLE001
+                v.fail("candidates_do_not_load", {"machine": "VariantMatcher", "model": name, "exc": f"{type(e).__name__}: {str(e)[:160]}"})
+                continue
             stats["dbs"] += 1
             stats["distinct_variants"] += len(distinct)
             for r in recs:
